@@ -113,7 +113,9 @@ func (c *UI) processCommand() error {
 	if err != nil {
 		return err
 	}
-	if cmdStr == "" {
+	// Line consisting only of spaces contains no command the same way as an
+	// empty line does.
+	if strings.Trim(cmdStr, " ") == "" {
 		return nil
 	}
 
